@@ -628,6 +628,60 @@ def run_resample(case):
   return R(None, step.denominator != 1 or mode != "const", (p, old, new, mode))
 
 
+# ------------------------------------------------------------ calling routes
+from ..routes import routes_agree, seq as rseq
+from audiolazy import fadein as _fadein, fadeout as _fadeout
+
+
+def route_table():
+  T = OrderedDict()
+  S = lambda vals: (lambda: Stream(list(vals)))
+  c = lambda v: (lambda: v)
+  T["line"] = (line, [("dur", c(Q(5))), ("begin", c(Q(2))), ("end", c(Q(-3))), ("finish", c(True))], rseq)
+  T["fadein"] = (_fadein, [("dur", c(Q(4)))], rseq)
+  T["fadeout"] = (_fadeout, [("dur", c(Q(4)))], rseq)
+  T["attack"] = (attack, [("a", c(Q(2))), ("d", c(Q(3))), ("s", c(Q(1, 4)))], lambda g: rseq(g, 9))
+  T["adsr"] = (adsr, [("dur", c(Q(12))), ("a", c(Q(2))), ("d", c(Q(3))), ("s", c(Q(1, 4))), ("r", c(Q(4)))], rseq)
+  T["ones"] = (ones, [("dur", c(Q(7, 2)))], rseq)
+  T["zeros"] = (zeros, [("dur", c(Q(7, 2)))], rseq)
+  T["impulse"] = (impulse, [("dur", c(Q(4))), ("one", c(Q(7))), ("zero", c(Q(-1)))], rseq)
+  T["modulo_counter"] = (modulo_counter, [("start", c(Q(1, 3))), ("modulo", c(Q(5, 2))), ("step", c(Q(2, 3)))], lambda g: rseq(g, 12))
+  T["modulo_counter(streams)"] = (modulo_counter, [("start", S([Q(1), Q(2), Q(4), Q(4)])), ("modulo", c(Q(3))), ("step", S([Q(1, 2)] * 6))], rseq)
+  T["sinusoid"] = (sinusoid, [("freq", c(0.3)), ("phase", c(1.25))], lambda g: rseq(g, 8))
+  T["resample"] = (resample, [("sig", lambda: [Q(1), Q(4), Q(9), Q(16), Q(25), Q(36)]), ("old", c(Q(2))), ("new", c(Q(3))),
+                              ("order", c(2)), ("zero", c(Q(5)))], rseq)
+  T["TableLookup"] = (lambda *a, **k: TableLookup(*a, **k)(Q(1) / Q(float(4) / (2 * 2 * math.pi)), Q(0)),
+                      [("table", lambda: [Q(0), Q(2), Q(0), Q(-2)]), ("cycles", c(2))], lambda g: rseq(g, 8))
+  T["TableLookup.__call__"] = (lambda *a, **k: TableLookup([Q(0), Q(2), Q(0), Q(-2)])(*a, **k),
+                               [("freq", c(Q(1, 2) / Q(float(4) / (2 * math.pi)))), ("phase", c(Q(1) / Q(float(4) / (2 * math.pi))))],
+                               lambda g: rseq(g, 8))
+  def seamed(fn):
+    def run(*a, **k):
+      lazy_synth.random = Seam([0.25, 0.75, 0.5])
+      return fn(*a, **k)
+    return run
+  T["white_noise"] = (seamed(white_noise), [("dur", c(6.0)), ("low", c(2.0)), ("high", c(3.0))], rseq)
+  T["gauss_noise"] = (seamed(gauss_noise), [("dur", c(4.0)), ("mu", c(2.0)), ("sigma", c(0.5))], rseq)
+  T["karplus_strong"] = (karplus_strong, [("freq", c(2 * math.pi / 3)), ("tau", c(10.0)), ("memory", lambda: [Q(1), Q(-2), Q(3)])],
+                         lambda g: [round(float(Q(v).f if hasattr(v, "f") else v), 9) for v in g.take(8)])
+  return T
+
+
+def gen_routes(run):
+  for name in route_table():
+    yield (name,)
+
+
+def run_routes(case):
+  name = case[0]
+  f, spec, canon = route_table()[name]
+  saved = lazy_synth.random
+  try:
+    return routes_agree(name, f, spec, canon)
+  finally:
+    lazy_synth.random = saved
+
+
 KINDS = OrderedDict([
   ("line", Kind(gen_line, run_line, chunk=100, rule="durations x begin x end x finish x number type")),
   ("durations", Kind(gen_durations, run_duration, chunk=10, rule="ones/zeros/impulse/fades x durations incl. None/inf")),
@@ -644,4 +698,6 @@ KINDS = OrderedDict([
   ("karplus", Kind(gen_karplus, run_karplus, chunk=4, rule="delay x tau x memory kind")),
   ("resample", Kind(gen_resample, run_resample, chunk=20,
                     rule="length x ratio x order x zero x constant/stream ratio; non-trivial: fractional positions")),
+  ("call-routes", Kind(gen_routes, run_routes, chunk=1,
+                       rule="each function with every documented parameter set: all positional / all keyword / every split must agree")),
 ])
